@@ -255,3 +255,64 @@ def finding_class(case: dict[str, Any]) -> str:
     if sp in TAGLIKE or (fam == "para2" and any(x in TAGLIKE for x in sp.split("+"))):
         return "tag-newline"
     return sk
+
+
+# ------------------------------------------------------------------------------------------
+# non-prose spans carrying quotes and dots (C04, C08, C09)
+# ------------------------------------------------------------------------------------------
+
+VERBATIM_WORDS: list[tuple[str, list[str]]] = [
+    ("tag-quotes", ['{% qza k="v..." j=\'w\' %}']),
+    ("var-quotes", ['{{ qza|d("x...") }}']),
+    ("jcomment-apos", ["{# it's \"qza\"... #}"]),
+    ("comment-quotes", ['<!-- it\'s "qza"... -->']),
+    ("code-quotes", ['`it\'s "qza"...`']),
+    ("code-dots", ["`qza...qzb`"]),
+    ("html-attr", ['<a title="qza\'s...">', "qzb", "</a>"]),
+    ("url-apos", ["http://u.example/it's...qza"]),
+    ("autolink-dots", ["<http://u.example/qza...b>"]),
+    ("link-title", ['[qza](http://u/a\'b "T\'s...")']),
+    ("link-title-sq", ["[qza](http://u/a 'say \"hi\"...')"]),
+    ("link-dest-parens", ["[qza](http://u/a_(b)...c)"]),
+    ("image-title", ['![qza\'s](i.png "qzb...")']),
+    ("ref-link", ["[qza's][r...]"]),
+    ("esc-quotes", ['\\"qza\\"', "qzb\\'s"]),
+    ("quoted-code", ['"`qza`"', "'`qzb`'..."]),
+    ("quoted-tag", ['"{% qza %}"...']),
+    ("apos-after-code", ["`qza`'s", "qzb"]),
+    ("link-dest-angle", ["[qza](<a b> 'T')"]),
+    ("link-dest-angle-paren", ["[qza](<a(b> \"T\")"]),
+    ("image-dest-angle", ["![qza](<my img.png>)"]),
+]
+
+VERBATIM_BLOCKS: list[tuple[str, str]] = [
+    ("codeblock-quotes", 'qaa "qab"...\n\n```py info "x"...\ns = \'it\'s\' + "..."\n\n  t...\n```\n\nqac\'s qad\n'),
+    ("codeblock-tilde-in-list", "- qaa's \"qab\"\n\n  ~~~\n  \"x\"...   y\n  ~~~\n- qac...\n"),
+    ("indented-code", 'qaa "qab"\n\n    "x"... it\'s\n\nqac\n'),
+    ("code-in-quote", '> qaa\'s\n>\n> ```\n> "q"...\n> ```\n'),
+    ("refdef-quotes", '[qaa][r] "qab"...\n\n[r]: http://u/it\'s...x "T\'s \\"q\\"..."\n'),
+    ("refdef-sq-title", "[qaa][r] qab\n\n[r]: http://u/x 'it\\'s \"q\"...'\n"),
+    ("refdef-paren-title", "[qaa][r] qab\n\n[r]: http://u/x (it's \"q\"...)\n"),
+    ("footnote-label", "qaa[^it's...] \"qab\"\n\n[^it's...]: qac's \"qad\"...\n"),
+    ("table-code", '| "qaa" | `it\'s...` |\n|---|---|\n| qab\'s... | <b title="q\'s"> |\n'),
+    ("heading-code", '# "qaa" `it\'s...` qab\'s\n\nqac\n'),
+    ("fence-inner-run", "qaa\n\n````\n``` \"x\"...\n````\n\nqab\n"),
+    ("two-paras-quote", '"qaa qab\n\nqac qad" qae\n'),
+    ("tag-block", '{% qza k="it\'s..." %}\n"qaa" qab\'s... qac\n{% /qza %}\n'),
+    ("code-formfeed", "qaa\n\n```\na\x0cb\nc\u2028d\ne\x1cf\x85g\n```\n\nqab\n"),
+    ("code-vtab-cr", "qaa\n\n```\na\x0bb\n```\n\nqab\n"),
+    ("refdef-angle", "[qaa][r] qab\n\n[r]: <http://u/a b> \"T\"\n"),
+]
+
+
+def verbatim(tier: str) -> Iterator[dict[str, Any]]:
+    th = tier == "thorough"
+    ctxs = [c for c in (K.K_ALL if th else ["top", "bullet", "quote"]) if c != "task"]
+    for ctx in ctxs:
+        for name, ws in VERBATIM_WORDS:
+            for pos in ((0, 1, 2, 3) if th else (1, 3)):
+                t = ['"qaa', 'qab"', "qac's", "qad..."]
+                words = t[:pos] + ws + t[pos:]
+                yield dict(key=f"verb/{ctx}/{name}@{pos}", fam="verb", ctx=ctx, special=name, words=words, plines=[" ".join(words)])
+    for name, doc in VERBATIM_BLOCKS:
+        yield dict(key=f"verbblock/{name}", fam="verbblock", special=name, doc=doc)
